@@ -39,12 +39,35 @@ inductive Kind where
   | raw (n : Nat)
   | keypair          -- X25519: sk ‖ base·sk
   | signKeypair      -- Ed25519: seed ‖ A
+  | signKeypairFull  -- Ed25519, whole 64-byte secret key reported: (seed ‖ A) ‖ A
   | ephemeral        -- sealed box: base·esk only
   | saltText         -- crypto_pwhash_str: base64 of the 16-byte salt
   | two (n m : Nat)
   deriving Repr, DecidableEq
 
-/-- the table of entry points: name in the line protocol ↦ data flow -/
+/-- the table of entry points: name in the line protocol ↦ data flow.
+
+This is a hand-written literal list.  It is meant to have one entry for every name the
+runner (`/verif/harness/src/ops_rand.rs`, function `one`) offers — 60 names at the time of
+writing, the last nine only in nightly builds — but nothing in Lean ties it to the Rust
+source: agreement of the two lists is checked by the differential run (an entry-point name
+missing here makes the driver answer `n/a`), not by a theorem.
+
+The nightly (protected-memory) generators, per `/repo/src`:
+* `lockedro_gen32`  `HeapByteArray::<32>::gen_readonly_locked` = `gen_locked` (one
+  `copy_randombytes` of 32 bytes into the locked region) then `mprotect_readonly`;
+* `locked_trait_gen32`  `<Locked<HeapByteArray<32>> as NewByteArray<32>>::gen`: `new_locked`,
+  one `copy_randombytes` of 32 bytes;
+* `heapbytes_gen_locked33`  `HeapBytes::new_locked`, `resize(33, 0)`, one `copy_randombytes`
+  of the 33-byte slice;
+* `locked_kdf_gen`  `Kdf::<Locked<Key>, Locked<Context>>::gen`: `Key::gen()` (32) then
+  `Context::gen()` (8), reported as key ‖ context;
+* `lockedro_keypair_gen`  `KeyPair::gen_readonly_locked_keypair`: `crypto_box_keypair_inplace`
+  (32-byte secret key drawn, public key = base·sk), reported as sk ‖ pk;
+* `sign_locked_keypair_gen`, `sign_lockedro_keypair_gen`  `crypto_sign_keypair_inplace` (32-byte
+  seed drawn; sk = seed ‖ A); the runner reports the WHOLE 64-byte secret key, then the
+  public key: seed ‖ A ‖ A;
+* `locked_secretbox_key_gen`  `Locked<Key>::gen` for the 32-byte secretbox key. -/
 def table : List (String × Kind) := [
   ("randombytes_buf", .raw 32), ("copy_randombytes", .raw 24),
   ("copy_randombytes17", .raw 17), ("copy_randombytes37", .raw 37), ("randombytes_buf21", .raw 21),
@@ -65,7 +88,11 @@ def table : List (String × Kind) := [
   ("secretbox_nonce_gen", .raw 24), ("secretbox_key_gen", .raw 32), ("box_nonce_gen", .raw 24),
   ("auth_key_gen", .raw 32), ("onetimeauth_key_gen", .raw 32), ("generichash_key_gen", .raw 32),
   ("stream_key_gen", .raw 32), ("kx_keypair_gen", .keypair),
-  ("heap_gen32", .raw 32), ("locked_gen32", .raw 32), ("locked_keypair_gen", .keypair)]
+  ("heap_gen32", .raw 32), ("locked_gen32", .raw 32), ("locked_keypair_gen", .keypair),
+  ("lockedro_gen32", .raw 32), ("locked_trait_gen32", .raw 32), ("heapbytes_gen_locked33", .raw 33),
+  ("locked_kdf_gen", .two 32 8), ("lockedro_keypair_gen", .keypair),
+  ("sign_locked_keypair_gen", .signKeypairFull), ("sign_lockedro_keypair_gen", .signKeypairFull),
+  ("locked_secretbox_key_gen", .raw 32)]
 
 structure Derivers where
   x25519Base : Bytes → Bytes
@@ -77,6 +104,7 @@ def run (D : Derivers) (k : Kind) (src : Bytes) : Res :=
   | .raw n => raw n src
   | .keypair => withDerived 32 D.x25519Base src
   | .signKeypair => withDerived 32 D.edPublic src
+  | .signKeypairFull => withDerived 32 (fun seed => D.edPublic seed ++ D.edPublic seed) src
   | .ephemeral => onlyDerived 32 D.x25519Base src
   | .saltText => onlyDerived 16 D.b64 src
   | .two n m => two n m src
@@ -86,6 +114,7 @@ def Kind.consumed : Kind → Nat
   | .raw n => n
   | .keypair => 32
   | .signKeypair => 32
+  | .signKeypairFull => 32
   | .ephemeral => 32
   | .saltText => 16
   | .two n m => n + m
